@@ -63,7 +63,7 @@ NormalizeOut(h) ==      \* ... and _strip_connection_headers
 
 \* ---------------------------------------------------------------- the validation rules (shared by both directions)
 \* kind in {"req", "resp", "trl", "push"}: what the stream state machine says this block is
-SameField(a, b) == a.n = b.n /\ a.ty = b.ty          \* b':method' and ':method' are different dictionary keys
+SameField(a, b) == a.n = b.n          \* (names are compared as octets: b':method' and ':method' are the same field; repo fix)
 BadTE(t)   == t.n = "te" /\ t.vlo # "trailers"
 BadConn(t) == t.n \in ConnSpecific
 DupPseudo(h, i) == h[i].np /\ \E j \in 1..(i-1) : h[j].np /\ SameField(h[i], h[j])
